@@ -103,7 +103,8 @@ def parse_comments(s):
 
 
 def show_comments(d):
-    return ",".join(f"{show_str(k)}={show_str(v)}" for k, v in d.items()) if d else "-"
+    # `#>Bf3Update K=V` stores its parameter dict as a comment value; the model shows any such value as <dict>
+    return ",".join(f"{show_str(k)}={show_str(v if isinstance(v, str) else '<dict>')}" for k, v in d.items()) if d else "-"
 
 
 def tmp_path():
